@@ -86,6 +86,11 @@ func runHandleDirect(t *testing.T, sc *SeqScn, trace bool, owners []string) *Out
 	total := 0
 	res := Bubble(t, d.Sched.config(trace), nil, func() {
 		simrt.Event("scenario %x", simrt.Hash(hashBytes(mustJSON(sc))))
+		if len(d.Threads) == 1 {
+			simrt.Probe("run_class.direct_long_history")
+		} else {
+			simrt.Probe("run_class.direct_concurrent")
+		}
 		w := NewWorld(o)
 		view := w.FS.View()
 		fm := absnfs.VerifNewFileHandleMap(d.Max)
